@@ -593,6 +593,9 @@ def run(ck: Check, repo: Repo) -> None:
     rule_window_cut(ck, repo)
     # an empty tag value parses to None: it must not be stored as an expression (shared with C07-R12)
     c07.rule_parse_none(ck, repo, "R11")
+    # 'exactly the value its author wrote': the expression parser keeps identifiers as written (no symbol table) (shared with C06-R5)
+    from . import c06
+    c06.rule_language_and_case(ck, repo, folder, "R12")
     # order hazards met while folding (reported under C14, noted here)
     for h in folder.hazards:
         if "extract" in h.context:
